@@ -34,6 +34,9 @@ func NewSPDX23() *SPDX23 {
 func (s *SPDX23) Render(doc interface{}, wr io.Writer, o *native.RenderOptions, _ interface{}) error {
 	// TODO: add support for XML
 	encoder := json.NewEncoder(wr)
+	// SPDX identifiers and actors are read back verbatim by the SPDX
+	// libraries, they must not be rewritten as \u0026-style escapes.
+	encoder.SetEscapeHTML(false)
 	encoder.SetIndent("", strings.Repeat(" ", o.Indent))
 	if err := encoder.Encode(doc.(*spdx.Document)); err != nil {
 		return fmt.Errorf("encoding sbom to stream: %w", err)
